@@ -20,6 +20,9 @@ import (
 	metav1 "k8s.io/apimachinery/pkg/apis/meta/v1"
 	"k8s.io/apimachinery/pkg/runtime"
 	"k8s.io/apimachinery/pkg/types"
+	"k8s.io/client-go/tools/cache"
+
+	fake_nginx "github.com/nginx/kubernetes-ingress/pkg/client/clientset/versioned/fake"
 )
 
 var verifLogger = slog.New(slog.NewTextHandler(io.Discard, nil))
@@ -503,4 +506,81 @@ func VerifArb(kv map[string]string) string {
 		}
 	}
 	return first
+}
+
+// VerifClass evaluates the real class predicate. kv: kind=ing|vs|vsr|ts|pol|other ann=<v|-> field=<v|-> ("-" = absent/nil, "_" = empty string)
+func VerifClass(kv map[string]string) string {
+	lbc := &LoadBalancerController{ingressClass: "nginx", Logger: verifLogger}
+	field := verifUnq(kv["field"])
+	if kv["field"] == "-" {
+		field = "" // absent: a custom resource's class field is a plain string
+	}
+	var obj interface{}
+	switch kv["kind"] {
+	case "ing":
+		ing := &networking.Ingress{}
+		if kv["ann"] != "-" {
+			ing.Annotations = map[string]string{ingressClassKey: verifUnq(kv["ann"])}
+		}
+		if kv["field"] != "-" {
+			ing.Spec.IngressClassName = &field
+		}
+		obj = ing
+	case "vs":
+		v := &conf_v1.VirtualServer{}
+		v.Spec.IngressClass = field
+		obj = v
+	case "vsr":
+		v := &conf_v1.VirtualServerRoute{}
+		v.Spec.IngressClass = field
+		obj = v
+	case "ts":
+		v := &conf_v1.TransportServer{}
+		v.Spec.IngressClass = field
+		obj = v
+	case "pol":
+		v := &conf_v1.Policy{}
+		v.Spec.IngressClass = field
+		obj = v
+	default:
+		obj = &conf_v1.GlobalConfiguration{}
+	}
+	if lbc.HasCorrectIngressClass(obj) {
+		return "1"
+	}
+	return "0"
+}
+
+// VerifPolicyStatus drives the real statusUpdater.UpdatePolicyStatus: the caller hands in a (possibly stale)
+// Policy of class `arg`, the store holds the latest version of class `stored` ("-" = not in the store).
+// Returns whether an UpdateStatus write was issued.
+func VerifPolicyStatus(kv map[string]string) string {
+	lbc := &LoadBalancerController{ingressClass: "nginx", Logger: verifLogger}
+	mk := func(cls string) *conf_v1.Policy {
+		p := &conf_v1.Policy{ObjectMeta: metav1.ObjectMeta{Namespace: "d", Name: "p"}}
+		p.Spec.IngressClass = verifClass(cls)
+		return p
+	}
+	store := cache.NewStore(cache.DeletionHandlingMetaNamespaceKeyFunc)
+	var objs []runtime.Object
+	if kv["stored"] != "-" {
+		latest := mk(kv["stored"])
+		_ = store.Add(latest)
+		objs = append(objs, latest.DeepCopy())
+	}
+	cl := fake_nginx.NewSimpleClientset(objs...)
+	su := &statusUpdater{
+		confClient:             cl,
+		keyFunc:                cache.DeletionHandlingMetaNamespaceKeyFunc,
+		namespacedInformers:    map[string]*namespacedInformer{"": {policyLister: store}},
+		hasCorrectIngressClass: lbc.HasCorrectIngressClass,
+		logger:                 verifLogger,
+	}
+	_ = su.UpdatePolicyStatus(mk(kv["arg"]), "Valid", "AddedOrUpdated", "msg")
+	for _, a := range cl.Actions() {
+		if a.GetVerb() == "update" && a.GetSubresource() == "status" {
+			return "write"
+		}
+	}
+	return "none"
 }
